@@ -77,11 +77,16 @@ const (
 	pkBufferedChannel
 	pkDtMap
 	pkAdtMap
+	pkHFWorkerPool
+	pkHFOperationPool
+	pkSplitMerge
+	pkMapParallelBuffer
 	pkNumKinds
 )
 
 var pipeNames = []string{"Split", "ProcessParallel", "ParallelForEach", "itertool.Worker", "Map", "ParallelBuffer", "MergeIterators",
-	"GenerateParallel", "SharedChannelIterator", "Buffer", "Chain", "MergeSlices", "MergeSliceIterators", "BufferedChannel", "dt.Map", "adt.Map"}
+	"GenerateParallel", "SharedChannelIterator", "Buffer", "Chain", "MergeSlices", "MergeSliceIterators", "BufferedChannel", "dt.Map", "adt.Map",
+	"HF.WorkerPool", "HF.OperationPool", "Split+MergeIterators", "Map+ParallelBuffer"}
 
 func opts(w int, extra ...fun.OptionProvider[*fun.WorkerGroupConf]) []fun.OptionProvider[*fun.WorkerGroupConf] {
 	return append([]fun.OptionProvider[*fun.WorkerGroupConf]{fun.WorkerGroupConfNumWorkers(w)}, extra...)
@@ -240,6 +245,33 @@ func buildPipe(ctx context.Context, kind, n, w, buf int) *pipe {
 			m.Store(v, v)
 		}
 		p.outs = []*fun.Iterator[int]{m.Keys()}
+	case pkHFWorkerPool:
+		ops := make([]fun.Worker, n)
+		for i := range ops {
+			i := i
+			ops[i] = func(context.Context) error { record(i); return nil }
+		}
+		p.run = fun.HF.WorkerPool(fun.SliceIterator(ops))
+	case pkHFOperationPool:
+		ops := make([]fun.Operation, n)
+		for i := range ops {
+			i := i
+			ops[i] = func(context.Context) { record(i) }
+		}
+		pool := fun.HF.OperationPool(fun.SliceIterator(ops))
+		p.run = func(ctx context.Context) error { pool(ctx); return nil }
+	case pkSplitMerge:
+		// fan out and back in: every item crosses two hand-off points
+		src := source(p, items)
+		p.outs = []*fun.Iterator[int]{fun.MergeIterators(src.Split(w)...)}
+	case pkMapParallelBuffer:
+		src := source(p, items)
+		out := fun.Map(src.ParallelBuffer(buf+1), func(ctx context.Context, v int) (int, error) { stall(); return v + 1000, nil }, opts(w)...)
+		p.outs = []*fun.Iterator[int]{out}
+		p.expect = make([]int, n)
+		for i := range items {
+			p.expect[i] = i + 1000
+		}
 	default:
 		panic(fmt.Sprint("unknown pipe kind ", kind))
 	}
